@@ -10,6 +10,7 @@
 (*    optionally "passes":2 (the fragments were constructed twice over the same read objects,     *)
 (*    same options: re-tagging must give the same, still correct outcome - judged as usual) and   *)
 (*    "prepass":"other_options" (see JudgeOrNote).                                                *)
+(*   {"ev":"degenerate","tid":n,"proto":..,"what":"r1_none"|"r1_unmapped"|"r1_qcfail","out":{..}} *)
 (* Nothing computed by the driver is trusted: TLC checks that a.scn is a well-formed cut, that    *)
 (* b.scn is its mirror image, and that the alignment records handed to the code are the ones the  *)
 (* specification derives from the scenarios (clauses generator_mismatch_*: machinery, not code).  *)
@@ -26,7 +27,7 @@ SameRead(obs, d) == /\ obs.rev = d.rev /\ obs.start = d.start /\ obs["end"] = d[
 
 (* raw observation -> outcome record of the specification (RS is stored by pysam as an integer) *)
 ObsOut(o) == [has_ds |-> o.has_ds, ds |-> o.ds, has_rs |-> o.has_rs /\ o.rs \in {0, 1}, rs |-> (o.rs = 1),
-              qcfail |-> o.qcfail, valid |-> o.valid, hash |-> o.hash]
+              qcfail |-> o.qcfail, valid |-> o.valid, hash |-> o.hash, has_loc |-> o.has_loc, loc |-> o.loc]
 
 Side(x, v) == IF v = "ok" THEN "ok" ELSE v \o ":" \o x
 
@@ -39,7 +40,8 @@ CompanionVerdict(e) ==
     ELSE Side("ab", CS!DedupVerdict(e.a.scn, e.eq_a = "true", e.eq_b = "true"))
 
 Verdict(e) ==
-    IF e.ev # "pair" THEN "unknown_event"
+    IF e.ev = "degenerate" THEN "ok"        \* R1 missing / unmapped / flagged qcfail on input: outside the statement (DegNote)
+    ELSE IF e.ev # "pair" THEN "unknown_event"
     ELSE LET sa == e.a.scn  sb == e.b.scn  oa == ObsOut(e.a.out)  ob == ObsOut(e.b.out) IN
     IF ~CS!WellFormed(sa) THEN "generator_mismatch_scenario"
     ELSE IF sb # CS!MirrorScn(sa) THEN "generator_mismatch_mirror"
@@ -56,12 +58,15 @@ Verdict(e) ==
 RzNote(e) == LET x == IF e.a.out.has_ds /\ e.a.scn.proto = "nla" /\ e.a.scn.kind = "ok" /\ e.a.out.rz # "CATG" THEN "rz_not_CATG" ELSE ""
              IN IF x = "" THEN TRUE ELSE Note(l, e.tid, x)
 
+(* degenerate inputs: the statement does not say what happens; a site tag on them is reported as a NOTE *)
+DegNote(e) == IF e.ev = "degenerate" /\ (e.out.has_ds \/ e.out.valid) THEN Note(l, e.tid, "degenerate_" \o e.what \o "_" \o e.proto \o (IF e.out.has_ds THEN "_has_site_tag" ELSE "") \o (IF e.out.valid THEN "_valid" ELSE "")) ELSE TRUE
+RzNote2(e) == IF e.ev = "pair" THEN RzNote(e) ELSE TRUE
 TInit == l = 1
 (* events with "prepass":"other_options" re-tag reads that an earlier pass with OTHER options had tagged: outside the    *)
 (* quantifier (fresh simulated fragments); what the property's clauses would say is reported as a NOTE, never a reject *)
 JudgeOrNote(e) == IF Has(e, "prepass") /\ e.prepass = "other_options"
                   THEN (IF Verdict(e) = "ok" THEN TRUE ELSE Note(l, e.tid, "retag_other_options_" \o Verdict(e)))
                   ELSE Judge(l, Verdict(e))
-TNext == l <= Len(Log) /\ JudgeOrNote(Log[l]) /\ RzNote(Log[l]) /\ l' = l + 1
+TNext == l <= Len(Log) /\ JudgeOrNote(Log[l]) /\ RzNote2(Log[l]) /\ DegNote(Log[l]) /\ l' = l + 1
 TAccepted == TLCGet("stats").diameter - 1 = Len(Log)
 =====================================================================================================
